@@ -26,6 +26,16 @@ Definition mu_free (s : state) : bool := match mu s with None => true | Some _ =
 
 (** The next step of the background goroutines (worker, the current flush helper, the
     shutdown helper), if any is enabled: the worker never waits when it can move. *)
+(** the flush helper goroutine that can move, if any: a helper can outlive its call (the caller's
+    context ended while the helper was inside ExportSpans or waiting for batchMutex), so every
+    caller id up to the current one is looked at *)
+Fixpoint active_helper (n : nat) (s : state) : option nat :=
+  let here := match hpc s n with HReady | HExp => Some n | _ => None end in
+  match n with
+  | O => here
+  | S k => match here with Some _ => here | None => active_helper k s end
+  end.
+
 Definition bg_action (m : emode) (cur : nat) (s : state) : option action :=
   let w :=
     match wpc s with
@@ -41,10 +51,14 @@ Definition bg_action (m : emode) (cur : nat) (s : state) : option action :=
   | Some a => Some a
   | None =>
       let h :=
-        match hpc s cur with
-        | HReady => if mu_free s then Some (AHelper cur) else None
-        | HExp => match m with MOk => Some (AHelperEnd cur true) | MErr => Some (AHelperEnd cur false) | MBlock => None end
-        | _ => None
+        match active_helper cur s with
+        | Some u =>
+            match hpc s u with
+            | HReady => if mu_free s then Some (AHelper u) else None
+            | HExp => match m with MOk => Some (AHelperEnd u true) | MErr => Some (AHelperEnd u false) | MBlock => None end
+            | _ => None
+            end
+        | None => None
         end in
       match h with
       | Some a => Some a
@@ -251,4 +265,13 @@ Example det_ex2 :
   option_map (fun s => (flat_map ev_ret (hist s), known_sd (hist s), spec_ok cfg22 (hist s)))
     (run_det cfg22 [DBlock; DEnd 1%N true; DEnd 2%N true; DEnd 3%N true; DShutdownX; DShutdown; DFlush; DUnblock])
   = Some ([RCtx; RNil; RNil], true, true).
+Proof. vm_compute. reflexivity. Qed.
+
+(* a span appended while a flush helper's export is still in flight (caller's context ended, exporter
+   blocked): B must wait for batchMutex and is exported afterwards, exactly once *)
+Example det_ex3 :
+  option_map (fun s => (flat_map ev_ret (hist s), flat_map ev_batch (hist s)))
+    (run_det {| qcap := 2; maxb := 3; blocking := false |}
+       [DEnd 1%N true; DBlock; DFlushT; DEnd 2%N true; DUnblock; DFlush; DShutdown])
+  = Some ([RCtx; RNil; RNil], [([1%N], 0); ([2%N], 0)]).
 Proof. vm_compute. reflexivity. Qed.
